@@ -60,7 +60,7 @@ def items(tier, seed):
                 if shape == "absent" and vn != "vN":
                     continue
                 out.append(("total-tc%02d-%s-%s" % (tc, shape, vn), {"tc": tc, "shape": shape, "ver": vn, "F": (tc + len(vn)) % 2}))
-    out += [("evict-adsb", {}), ("evict-commb", {})]
+    out += [("evict-adsb", {}), ("evict-commb", {}), ("batch-2ac-F0", {"F": 0}), ("batch-2ac-F1", {"F": 1})]
     for case in ("upper", "lower", "mixed"):
         out += [("commb-absent-" + case, {"case": case})]
         if tier == "thorough" or case == "mixed":
@@ -124,6 +124,8 @@ def run_item(item):
         return run_total(item, pm)
     if name.startswith("evict-"):
         return run_evict(item, pm)
+    if name.startswith("batch-"):
+        return run_batch(item, pm)
     if name.startswith("commb-"):
         return run_commb(item, pm)
     if name.startswith("posref-"):
@@ -264,7 +266,8 @@ def run_total(item, pm):
             def replay(model, _p=p):
                 arg = conc_total(model, fr, t, tnow, rec, extra, receiver, la0, lo0)
                 r = H.real_driver("decode_step", arg)
-                bad = r[0] != "ret"
+                # no exception, and the aircraft is listed under its canonical (upper-case) address only
+                bad = r[0] != "ret" or bool(set(r[1]["keys"]) - {key_a()})
                 return bad, arg, "process_raw: %r" % (H.jsonable(r[:2]),), r
             item.prove("total", p.pc, claim, replay, path=p)
     item.sat_witness("reach", [])
@@ -285,6 +288,52 @@ def conc_record(model, rec):
     for k, v in rec.items():
         out[str(k) if not isinstance(k, int) else "#%d" % k] = H.concretise(model, v)
     return out
+
+
+def run_batch(item, pm):
+    """two aircraft in ONE batch: A's message is decoded through the reference path, B is heard for the first time (its
+    single frame cannot be decoded yet): nothing decoded for A may end up in B's record, and vice versa"""
+    item.encoded("pyModeS.streamer.decode.Decode.process_raw")
+    F = item.params["F"]
+    fa = adsb_frame("a_", ICAO_A, tc=11, F=F, case="upper", cpr=(93000, 51372) if F == 0 else (74158, 50194))
+    fb = adsb_frame("b_", ICAO_B, tc=12, F=1 - F, case="upper", cpr=(30000, 100000))
+    t, t2, tnow = z3.Reals("t t2 tnow")
+    item.declare(fa, fb, t, t2, tnow)
+    item.real_inputs = [t, t2, tnow]
+    recA, ex = sym_state(item, pm, "pos", "vN", t, other_F=1 - F, cpr=(4711, 815))
+    # (CPR fields concrete: this item is about records not leaking into each other, not about the arithmetic)
+    item.assume(L.adsb_df(fa), L.adsb_df(fb), t >= 0, t <= t2, t2 <= tnow, tnow - t <= 5, ex["t"] <= t, t - ex["tpos"] < 180)
+    kb = "%06X" % ICAO_B
+    for order in ("AB", "BA"):
+        def run(order=order):
+            d = mk_decoder(pm, {key_a(): dict(recA)})
+            ms = [(SymReal(t), fa.msg), (SymReal(t2), fb.msg)]
+            if order == "BA":
+                ms = [(SymReal(t), fb.msg), (SymReal(t2), fa.msg)]
+            d.process_raw([m[0] for m in ms], [m[1] for m in ms], [], [], SymReal(tnow))
+            return d.acs
+        paths = item.explore(run, maxpaths=100000)
+        for p in paths:
+            if p.kind != "ret":
+                claim = False
+            else:
+                acs = p.value
+                rb = acs.get(kb)
+                ra = acs.get(key_a())
+                claim = rb is not None and ra is not None and rb.get("lat") is None and rb.get("lon") is None and \
+                    "tpos" not in rb and H.is_num_like(ra.get("lat"))
+
+            def replay(model, order=order):
+                fv = lambda x: L.fval(model, x)
+                ms = [[fv(t), fa.concrete(model)], [fv(t2), fb.concrete(model)]]
+                if order == "BA":
+                    ms = [[fv(t), fb.concrete(model)], [fv(t2), fa.concrete(model)]]
+                arg = {"adsb": ms, "commb": [], "tnow": fv(tnow), "latlon": None, "state": {key_a(): conc_record(model, recA)}}
+                r = H.real_driver("decode_step", arg)
+                bad = r[0] != "ret" or r[1]["lat"].get(kb) is not None or r[1]["tpos"].get(kb) is not None
+                return bad, arg, "table after the batch: %r" % (H.jsonable(r[1:2]),), r
+            item.prove("batch-" + order, p.pc, claim, replay, path=p)
+    item.sat_witness("reach", [])
 
 
 def run_evict(item, pm):
